@@ -23,6 +23,9 @@ type Script struct {
 	Gaps     []int64 `json:"producer_gaps_ns"` // pause before each write; one element per entry
 	CloseGap int64   `json:"close_gap_ns"`
 	Cons     []int64 `json:"consumer_delays_ns"` // pause before each receive, cycled; empty = always ready
+	// PreStart: the producer is started, and has filled the input buffer or is blocked in its
+	// first send, before the discipline is created
+	PreStart bool `json:"producer_started_before_creation,omitempty"`
 }
 
 // Trace is what was observed.
@@ -84,12 +87,7 @@ func execute1(t *testing.T, s Script, leakScan bool, budget time.Duration) Trace
 		epoch := time.Now()
 		now := func() int64 { return int64(time.Since(epoch)) }
 		in := make(chan int, s.InCap)
-		dsc, err := limit.New(limit.Opts[int]{Input: in, Limit: limit.Rate{Interval: time.Duration(s.I), Quantity: s.Q}})
-		if err != nil {
-			tr.NewErr = err.Error()
-			return
-		}
-		go func() {
+		produce := func() {
 			for i, g := range s.Gaps {
 				time.Sleep(time.Duration(g))
 				tr.WStart = append(tr.WStart, now())
@@ -99,7 +97,25 @@ func execute1(t *testing.T, s Script, leakScan bool, budget time.Duration) Trace
 			time.Sleep(time.Duration(s.CloseGap))
 			tr.CloseAt = now()
 			close(in)
-		}()
+		}
+		if s.PreStart {
+			go produce()
+			bubble.Wait() // the producer has written what fits and is blocked (or done)
+		}
+		dsc, err := limit.New(limit.Opts[int]{Input: in, Limit: limit.Rate{Interval: time.Duration(s.I), Quantity: s.Q}})
+		if err != nil {
+			tr.NewErr = err.Error()
+			if s.PreStart {
+				go func() { // let the producer finish
+					for range in {
+					}
+				}()
+			}
+			return
+		}
+		if !s.PreStart {
+			go produce()
+		}
 		for k := 0; ; k++ {
 			if len(s.Cons) > 0 {
 				time.Sleep(time.Duration(s.Cons[k%len(s.Cons)]))
@@ -360,6 +376,7 @@ func Gen(thorough bool) *rapid.Generator[Script] {
 				s.Cons = append(s.Cons, rapid.SampledFrom([]int64{0, 0, iv / 3, iv, 2*iv + 1, 5 * iv}).Draw(t, "cd"))
 			}
 		}
+		s.PreStart = rapid.IntRange(0, 2).Draw(t, "prestart") == 0
 		if s.Q <= 1000 && rapid.IntRange(0, 7).Draw(t, "steady") == 0 {
 			// everything up-front, several batches, a consumer that needs a fixed time per element
 			// and is still faster than the limit (output back-pressure inside a batch)
